@@ -938,3 +938,369 @@ pub fn log_to_request_full(
     }
     Ok(toks.join(" "))
 }
+
+// =================================================================================================
+// Session 4, third wave (package W7, round-5 seeds C02-5 / C07-5): a CLI-level stream with a
+// SCRIPTED `$GCOV` (the variable grcov itself reads). A "gcno" of this stream is a one-line control
+// file `W7STUB <dir> <status>`: the stub copies the prepared output files of `<dir>` into its
+// working directory (the consumer's) and exits with `<status>`; `--version` prints the text of the
+// file named by `$W7_GCOV_VERSION`. Two emulations:
+//  * text: gcov 7.5 – several intermediate-format `.gcov` files per translation unit (one per
+//    source file, a header shared between units), grcov's "multiple files" mode; some units have
+//    ONE output file the parser rejects (truncated record, non-numeric line): the unit is rejected
+//    as a whole and must contribute NOTHING, also not its other source files;
+//  * json: gcov 12.2 – one `<unit>.gcov.json.gz` per unit; some units FAIL (exit status 5, the
+//    stale-gcda case) AFTER writing a complete all-zero output: nothing of it may reach the report,
+//    whichever item its consumer handles next; role-swapped pairs of sets make sure that in one of
+//    them the failing unit is the first gcno item of its consumer.
+// Oracle (property texts of C02 / C07, no model): exit status 0; the decoded report is the C01
+// aggregate of the units that were not rejected, each taken alone (the expectation is built from
+// the generated data, and checked against a reference run on the good units only); one error is
+// logged per rejected unit; for --threads 1, 2, 4 and two argument orders.
+// =================================================================================================
+
+pub const W7_GCOV_STUB: &str = r#"#!/bin/sh
+if [ "$1" = "--version" ]; then cat "$W7_GCOV_VERSION"; exit 0; fi
+g=""
+for a in "$@"; do case "$a" in *.gcno) g="$a";; esac; done
+[ -n "$g" ] || exit 1
+read tag dir code < "$g" || true
+[ "$tag" = "W7STUB" ] || exit 1
+for f in "$dir"/*; do [ -e "$f" ] && cp "$f" .; done
+exit "$code"
+"#;
+
+pub fn gzip_bytes(data: &[u8]) -> Vec<u8> {
+    use std::io::Write;
+    let mut child = Command::new("gzip").arg("-c").stdin(Stdio::piped()).stdout(Stdio::piped()).spawn().expect("gzip is needed for the scripted-gcov stream");
+    child.stdin.take().unwrap().write_all(data).unwrap();
+    let out = child.wait_with_output().unwrap();
+    out.stdout
+}
+
+#[derive(Clone)]
+pub struct StubUnit {
+    pub name: String,
+    /// files the scripted gcov leaves in the working directory
+    pub outputs: Vec<(String, Vec<u8>)>,
+    pub status: i32,
+    /// what the unit contains (from the generated data, not from a parser)
+    pub contains: Vec<(String, CovResult)>,
+    /// the unit must contribute nothing: a failed gcov run, or an output file the parser rejects
+    pub rejected: bool,
+    pub kind: String,
+}
+
+pub struct StubCase {
+    pub mode: &'static str, // "text" | "json"
+    pub units: Vec<StubUnit>,
+    pub one_dir: bool,
+}
+
+fn stub_cov(lines: &[(u32, u64)], fns: &[(String, u32, bool)]) -> CovResult {
+    let mut c = CovResult::default();
+    for (l, n) in lines {
+        c.lines.insert(*l, *n);
+    }
+    for (n, st, ex) in fns {
+        c.functions.insert(n.clone(), Function { start: *st, executed: *ex });
+    }
+    c
+}
+
+fn text_of(file: &str, lines: &[(u32, u64)], fns: &[(String, u32, bool)]) -> String {
+    let mut s = format!("file:{}\n", file);
+    for (n, st, ex) in fns {
+        s.push_str(&format!("function:{},{},{}\n", st, if *ex { 3 } else { 0 }, n));
+    }
+    for (l, n) in lines {
+        s.push_str(&format!("lcount:{},{}\n", l, n));
+    }
+    s
+}
+
+fn json_of(files: &[(String, Vec<(u32, u64)>, Vec<(String, u32, bool)>)]) -> Vec<u8> {
+    let fs: Vec<serde_json::Value> = files.iter().map(|(f, lines, fns)| serde_json::json!({
+        "file": f,
+        "functions": fns.iter().map(|(n, st, ex)| serde_json::json!({"name": n, "demangled_name": n, "start_line": st, "start_column": 1,
+            "end_line": st + 2, "end_column": 1, "blocks": 2, "blocks_executed": if *ex { 2 } else { 0 }, "execution_count": if *ex { 3 } else { 0 }})).collect::<Vec<_>>(),
+        "lines": lines.iter().map(|(l, n)| serde_json::json!({"line_number": l, "function_name": null, "count": n, "unexecuted_block": *n == 0, "branches": []})).collect::<Vec<_>>(),
+    })).collect();
+    let j = serde_json::json!({"format_version": "1", "gcc_version": "12.2.0", "current_working_directory": "/", "data_file": "stub.gcda", "files": fs});
+    gzip_bytes(serde_json::to_string(&j).unwrap().as_bytes())
+}
+
+/// `n_bad` of the `k` units are rejected; `bad_first`: which of the first two units is bad (for the
+/// role-swapped pairs of the json mode)
+pub fn gen_stub_case(rng: &mut Rng, mode: &'static str, names: &[String], bad: &[usize], one_dir: bool) -> StubCase {
+    let mut units = vec![];
+    for (i, name) in names.iter().enumerate() {
+        let is_bad = bad.contains(&i);
+        let own_c = format!("{}.c", name);
+        let own_h = format!("{}.h", name);
+        let c_lines: Vec<(u32, u64)> = vec![(1, rng.range(1, 9)), (2, rng.range(0, 5)), (5, 0)];
+        let c_fns = vec![(format!("{}_main", name), 1u32, true)];
+        let h_lines: Vec<(u32, u64)> = vec![(3, rng.range(1, 4)), (4, rng.range(0, 3))];
+        let h_fns = vec![(format!("{}_inline", name), 3u32, true)];
+        let shared = rng.chance(2, 3);
+        let s_lines: Vec<(u32, u64)> = vec![(7, rng.range(1, 6)), (8, rng.range(0, 2))];
+        let s_fns = vec![("common_inline".to_string(), 7u32, true)];
+        let mut contains = vec![(own_c.clone(), stub_cov(&c_lines, &c_fns)), (own_h.clone(), stub_cov(&h_lines, &h_fns))];
+        if shared {
+            contains.push(("common.h".to_string(), stub_cov(&s_lines, &s_fns)));
+        }
+        let mut outputs: Vec<(String, Vec<u8>)> = vec![];
+        let mut status = 0;
+        let mut kind = "good".to_string();
+        if mode == "text" {
+            let mut texts = vec![(format!("{}.c.gcov", name), text_of(&own_c, &c_lines, &c_fns)), (format!("{}.h.gcov", name), text_of(&own_h, &h_lines, &h_fns))];
+            if shared {
+                texts.push((format!("{}#common.h.gcov", name), text_of("common.h", &s_lines, &s_fns)));
+            }
+            if is_bad {
+                // ONE of the unit's output files is unparsable, the others are fine
+                let victim = rng.below(texts.len() as u64) as usize;
+                let t = &mut texts[victim].1;
+                match rng.below(3) {
+                    0 => {
+                        // cut in the middle of the last record
+                        let cut = t.trim_end().rfind(',').unwrap();
+                        t.truncate(cut);
+                        kind = format!("bad.truncated.{}", victim);
+                    }
+                    1 => {
+                        t.push_str("lcount:x,1\n");
+                        kind = format!("bad.line-number.{}", victim);
+                    }
+                    _ => {
+                        *t = t.replacen("function:", "function:q", 1);
+                        kind = format!("bad.function-start.{}", victim);
+                    }
+                }
+            }
+            outputs = texts.into_iter().map(|(n, t)| (n, t.into_bytes())).collect();
+        } else {
+            if is_bad {
+                // gcov fails after writing its (all-zero) output: the stale-gcda case
+                let zero = |v: &[(u32, u64)]| v.iter().map(|(l, _)| (*l, 0u64)).collect::<Vec<_>>();
+                let unex = |v: &[(String, u32, bool)]| v.iter().map(|(n, s, _)| (n.clone(), *s, false)).collect::<Vec<_>>();
+                let mut files = vec![(own_c.clone(), zero(&c_lines), unex(&c_fns)), (own_h.clone(), zero(&h_lines), unex(&h_fns))];
+                if shared {
+                    files.push(("common.h".to_string(), zero(&s_lines), unex(&s_fns)));
+                }
+                if names.len() > 2 && rng.chance(1, 5) {
+                    kind = "bad.failed-run.no-output".into();
+                    status = 2;
+                } else {
+                    outputs.push((format!("{}.gcov.json.gz", name), json_of(&files)));
+                    kind = "bad.failed-run.output-left".into();
+                    status = 5;
+                }
+            } else {
+                let mut files = vec![(own_c.clone(), c_lines.clone(), c_fns.clone()), (own_h.clone(), h_lines.clone(), h_fns.clone())];
+                if shared {
+                    files.push(("common.h".to_string(), s_lines.clone(), s_fns.clone()));
+                }
+                outputs.push((format!("{}.gcov.json.gz", name), json_of(&files)));
+            }
+        }
+        units.push(StubUnit { name: name.clone(), outputs, status, contains, rejected: is_bad, kind });
+    }
+    StubCase { mode, units, one_dir }
+}
+
+impl StubCase {
+    pub fn to_json(&self) -> serde_json::Value {
+        serde_json::json!({"op": "gcovstub", "mode": self.mode, "one_dir": self.one_dir,
+            "units": self.units.iter().map(|u| serde_json::json!({"name": u.name, "status": u.status, "rejected": u.rejected, "kind": u.kind,
+                "outputs": u.outputs.iter().map(|(n, b)| serde_json::json!([n, hex(b)])).collect::<Vec<_>>(),
+                "contains": u.contains.iter().map(|(k, c)| serde_json::json!([k, show_cov(c)])).collect::<Vec<_>>()})).collect::<Vec<_>>()})
+    }
+    pub fn from_json(v: &serde_json::Value) -> Option<StubCase> {
+        let units = v["units"].as_array()?.iter().map(|u| StubUnit {
+            name: u["name"].as_str().unwrap_or("").to_string(),
+            status: u["status"].as_i64().unwrap_or(0) as i32,
+            rejected: u["rejected"].as_bool().unwrap_or(false),
+            kind: u["kind"].as_str().unwrap_or("").to_string(),
+            outputs: u["outputs"].as_array().map(|a| a.iter().map(|e| (e[0].as_str().unwrap_or("").to_string(), unhex(e[1].as_str().unwrap_or("")))).collect()).unwrap_or_default(),
+            contains: u["contains"].as_array().map(|a| a.iter().map(|e| (e[0].as_str().unwrap_or("").to_string(), parse_cov(e[1].as_str().unwrap_or("L;B;F")))).collect()).unwrap_or_default(),
+        }).collect();
+        Some(StubCase { mode: if v["mode"].as_str()? == "text" { "text" } else { "json" }, units, one_dir: v["one_dir"].as_bool().unwrap_or(false) })
+    }
+    /// writes inputs, prepared outputs, the stub and its version file below `dir` (canonical);
+    /// returns the path arguments (one directory per unit, or the one data directory)
+    pub fn materialise(&self, dir: &Path) -> Vec<String> {
+        let _ = std::fs::remove_dir_all(dir);
+        std::fs::create_dir_all(dir.join("stubout")).unwrap();
+        let stub = dir.join("gcov-stub");
+        std::fs::write(&stub, W7_GCOV_STUB).unwrap();
+        use std::os::unix::fs::PermissionsExt;
+        std::fs::set_permissions(&stub, std::fs::Permissions::from_mode(0o755)).unwrap();
+        std::fs::write(dir.join("gcov-version.txt"), if self.mode == "text" { "gcov (GCC) 7.5.0\n" } else { "gcov (GCC) 12.2.0\n" }).unwrap();
+        let mut args = vec![];
+        for u in &self.units {
+            let out = dir.join("stubout").join(&u.name);
+            std::fs::create_dir_all(&out).unwrap();
+            for (n, b) in &u.outputs {
+                std::fs::write(out.join(n), b).unwrap();
+            }
+            let d = if self.one_dir { dir.join("data") } else { dir.join(format!("u_{}", u.name)) };
+            std::fs::create_dir_all(&d).unwrap();
+            std::fs::write(d.join(format!("{}.gcno", u.name)), format!("W7STUB {} {}\n", out.display(), u.status)).unwrap();
+            std::fs::write(d.join(format!("{}.gcda", u.name)), format!("run data of {}\n", u.name)).unwrap();
+            if !self.one_dir {
+                args.push(format!("u_{}", u.name));
+            }
+        }
+        if self.one_dir {
+            args.push("data".into());
+        }
+        args
+    }
+    pub fn expected(&self) -> BTreeMap<String, CovResult> {
+        let ins: Vec<Input> = self.units.iter().filter(|u| !u.rejected).map(|u| Input { name: u.name.clone(), format: "Gcno", bytes: vec![], id: String::new(), parsed: u.contains.clone() }).collect();
+        let refs: Vec<&Input> = ins.iter().collect();
+        aggregate(&refs)
+    }
+}
+
+/// runs one case: reference run on the good units, then --threads 1, 2, 4 with two argument orders
+pub fn eval_stub_case(rep: &mut Report, dir: &Path, c: &StubCase, rng: &mut Rng, prop: &str) -> bool {
+    let args0 = c.materialise(dir);
+    std::env::set_var("GCOV", dir.join("gcov-stub"));
+    std::env::set_var("W7_GCOV_VERSION", dir.join("gcov-version.txt"));
+    let want = show_map(&c.expected());
+    let n_bad = c.units.iter().filter(|u| u.rejected).count();
+    let case = c.to_json();
+    let mut ok = true;
+    let run = |args: Vec<String>, threads: usize, perturb: Option<u64>| run_grcov(&RunCfg { dir, args, threads, perturb, fault: None,
+        limit: Duration::from_secs(60), extra: vec!["-t".into(), "lcov".into(), "--no-demangle".into()] });
+    if !c.one_dir && n_bad < c.units.len() {
+        let good: Vec<String> = c.units.iter().filter(|u| !u.rejected).map(|u| format!("u_{}", u.name)).collect();
+        let out = run(good, 1, None);
+        let got = decode_lcov_report(&out.stdout).map(|m| show_map(&m)).unwrap_or_default();
+        if out.exit != Some(0) || got != want {
+            rep.fail("oracle", None, format!("[{} scripted gcov, {}] the run on the units that are not rejected does not report the aggregate of what they contain (exit {:?})", c.mode, prop, out.exit),
+                serde_json::json!({"case": case, "report": got, "aggregate": want, "stderr": out.stderr.chars().take(600).collect::<String>()}));
+            ok = false;
+        }
+    }
+    for (r, threads) in [1usize, 1, 2, 2, 4, 4].iter().enumerate() {
+        if !ok {
+            break;
+        }
+        let mut args = args0.clone();
+        if r % 2 == 1 {
+            args.reverse();
+        } else {
+            rng.shuffle(&mut args);
+        }
+        let out = run(args.clone(), *threads, if r % 2 == 1 { Some(rng.next() % 100000) } else { None });
+        rep.count(&format!("gcovstub.{}.threads={}", c.mode, threads));
+        let run_case = serde_json::json!({"case": case, "threads": threads, "args": args});
+        match out.exit {
+            None => {
+                rep.fail("oracle", None, format!("[{} scripted gcov] grcov did not terminate within 60 s", c.mode), run_case);
+                ok = false;
+                continue;
+            }
+            Some(0) => {}
+            Some(code) => {
+                rep.fail("oracle", None, format!("[{} scripted gcov] no worker died but grcov exited with status {} ({} of {} units rejected)", c.mode, code, n_bad, c.units.len()),
+                    serde_json::json!({"case": run_case, "stderr": out.stderr.chars().take(600).collect::<String>()}));
+                ok = false;
+                continue;
+            }
+        }
+        let got = decode_lcov_report(&out.stdout).map(|m| show_map(&m)).unwrap_or_else(|e| format!("undecodable: {}", e));
+        if got != want {
+            let what = if c.mode == "text" {
+                "an input ONE of whose several gcov output files is rejected must be skipped as a whole: the report is not the aggregate of the inputs that were not rejected (the rejected input still contributes its other source files, or a good one was lost)"
+            } else {
+                "an input whose gcov run FAILED after writing output must contribute nothing: the report is not the aggregate of the inputs whose gcov run succeeded (output left behind by the failed run was parsed as the next item's, or a good input was lost)"
+            };
+            rep.fail("oracle", None, format!("[{} scripted gcov, --threads {}] {}", c.mode, threads, what),
+                serde_json::json!({"case": run_case, "report": got, "aggregate": want}));
+            ok = false;
+            continue;
+        }
+        let logged = if c.mode == "text" { out.stderr.matches("Error parsing file").count() } else { out.stderr.matches("Error when running gcov").count() };
+        let enough = if c.mode == "text" { logged >= n_bad } else { logged == n_bad };
+        if !enough {
+            rep.fail("oracle", None, format!("[{} scripted gcov] {} units are rejected but {} errors were logged", c.mode, n_bad, logged), run_case);
+            ok = false;
+        }
+    }
+    std::env::remove_var("GCOV");
+    std::env::remove_var("W7_GCOV_VERSION");
+    ok
+}
+
+/// the stream: `n_text` sets with the gcov 7.5 emulation, `n_json` sets with the gcov 12.2 one
+pub fn gcov_stub_stream(rep: &mut Report, tag: u64, n_text: u64, n_json: u64, prop: &str) {
+    let mut rng = Rng::new(rep.seed ^ tag);
+    let root = std::fs::canonicalize(&rep.workdir).unwrap().join("gcovstub");
+    let pool = ["alpha", "beta", "gamma", "delta", "epsilon", "zeta", "eta", "theta", "iota", "kappa", "one", "two", "lib_x", "mod7"];
+    let mut prev_names: Vec<String> = vec![];
+    for i in 0..(n_text + n_json) {
+        if rep.verdict_clear() {
+            break;
+        }
+        let mode: &'static str = if i < n_text { "text" } else { "json" };
+        let j = if i < n_text { i } else { i - n_text };
+        // json sets come in role-swapped pairs over the same unit names: in one of the two the
+        // failing unit is the one the producer sends first
+        let (names, bad): (Vec<String>, Vec<usize>) = if mode == "json" && j % 2 == 1 && prev_names.len() >= 2 {
+            (prev_names.clone(), vec![1])
+        } else {
+            let k = if mode == "json" && (j / 2) % 2 == 0 { 2 } else { rng.range(3, 7) as usize };
+            let mut p: Vec<&str> = pool.to_vec();
+            rng.shuffle(&mut p);
+            let names: Vec<String> = p[..k].iter().map(|s| format!("{}{}", s, rng.below(90))).collect();
+            let mut bad = vec![0usize];
+            if mode == "text" {
+                bad = vec![rng.below(k as u64) as usize];
+                if k >= 4 && rng.chance(1, 2) {
+                    bad.push((bad[0] + 1 + rng.below(k as u64 - 1) as usize) % k);
+                }
+            } else if k >= 5 && rng.chance(1, 2) {
+                bad.push(3);
+            }
+            (names, bad)
+        };
+        prev_names = names.clone();
+        let one_dir = rng.chance(1, 4);
+        let c = gen_stub_case(&mut rng, mode, &names, &bad, one_dir);
+        rep.case(&format!("gcovstub {} {:?} {:?} {}", mode, names, c.units.iter().map(|u| u.kind.clone()).collect::<Vec<_>>(), one_dir), true);
+        rep.count(&format!("gcovstub.{}.sets", mode));
+        for u in &c.units {
+            rep.count(&format!("gcovstub.{}.unit.{}", mode, u.kind.split('.').take(3).collect::<Vec<_>>().join(".")));
+        }
+        if eval_stub_case(rep, &root, &c, &mut rng, prop) {
+            rep.count(&format!("gcovstub.{}.held", mode));
+        }
+    }
+    let _ = std::fs::remove_dir_all(&root);
+}
+
+pub fn gcov_stub_replay(rep: &mut Report, case: &serde_json::Value, prop: &str) -> bool {
+    let mut c0 = case;
+    for _ in 0..3 {
+        if c0.get("case").is_some() {
+            c0 = &c0["case"];
+        }
+    }
+    if c0["op"].as_str() != Some("gcovstub") {
+        return false;
+    }
+    let Some(c) = StubCase::from_json(c0) else { return true };
+    let root = std::fs::canonicalize(&rep.workdir).unwrap().join("gcovstub_replay");
+    let mut rng = Rng::new(7);
+    for _ in 0..3 {
+        rep.case("gcovstub replay", true);
+        if !eval_stub_case(rep, &root, &c, &mut rng, prop) {
+            break;
+        }
+    }
+    true
+}
